@@ -102,6 +102,8 @@ type Analyzer struct {
 	OnMapUpdate func(fn *ssa.Function, ins *ssa.MapUpdate, st *State, m, k, v Term)
 	// OnAppend observes append calls (dst slice, appended operand).
 	OnAppend func(fn *ssa.Function, site ssa.Instruction, st *State, dst *Slice, src Term)
+	// Reused: bases whose backing array is overwritten in place (E4), with the reason.
+	Reused map[int]string
 	// OnExternal observes calls of functions without a repo body (library calls).
 	OnExternal func(fn *ssa.Function, site ssa.Instruction, name string, st *State, args []Term)
 	// OnInlined observes every return of an inlined repo function.
@@ -123,7 +125,7 @@ func New(p *load.Program) *Analyzer {
 		Reach: map[*ssa.Function]bool{}, GoTargets: map[*ssa.Function]bool{}, AssumedTotal: map[string]int{},
 		Analysed: map[*ssa.Function]int{}, MaxSteps: 4_000_000,
 		strBases: map[string]*Base{}, freshObjs: map[int]bool{}, locTypes: map[Loc]types.Type{}, strEq: map[int][2]*Slice{},
-		live: map[*ssa.Function]*liveInfo{}, Track: map[int]bool{}, Stored: map[Loc]bool{}, taint: map[int]map[Loc]bool{}, initTerm: map[Loc]Term{}, ifaceRecv: map[string]Term{}, mapOrigin: map[int]Loc{}, nilCmp: map[int]int{}, OpaqueUsed: map[*ssa.Function]int{}, boolSrc: map[int]*BoolSrc{}, sentinelCache: map[*ssa.Global]bool{}, PureHelpers: map[string]bool{}}
+		live: map[*ssa.Function]*liveInfo{}, Track: map[int]bool{}, Stored: map[Loc]bool{}, taint: map[int]map[Loc]bool{}, initTerm: map[Loc]Term{}, ifaceRecv: map[string]Term{}, Reused: map[int]string{}, mapOrigin: map[int]Loc{}, nilCmp: map[int]int{}, OpaqueUsed: map[*ssa.Function]int{}, boolSrc: map[int]*BoolSrc{}, sentinelCache: map[*ssa.Global]bool{}, PureHelpers: map[string]bool{}}
 }
 
 func (a *Analyzer) id() int { a.nextID++; return a.nextID }
@@ -720,7 +722,16 @@ func (a *Analyzer) runLoop1(fr *frame, h *ssa.BasicBlock, body map[*ssa.BasicBlo
 									fresh = false
 								}
 							}
-							c.base = &Base{ID: a.id(), Desc: "φ" + phiName(c.phi), Fresh: fresh}
+							nb := &Base{ID: a.id(), Desc: "φ" + phiName(c.phi), Fresh: fresh}
+							if c.base != nil {
+								nb.MayAlias = append(nb.MayAlias, c.base)
+							}
+							for _, B2 := range backs {
+								if v2, ok := B2.Env[c.phi].(*Slice); ok {
+									nb.MayAlias = append(nb.MayAlias, v2.Base)
+								}
+							}
+							c.base = nb
 							changed = true
 						}
 						break
@@ -926,6 +937,18 @@ func (a *Analyzer) runLoop1(fr *frame, h *ssa.BasicBlock, body map[*ssa.BasicBlo
 
 // havocTerm returns an unconstrained value for a heap location whose value changes.
 func (a *Analyzer) havocTerm(loc Loc, old Term, others ...Term) Term {
+	t := a.havocTerm0(loc, old, others...)
+	if ns, ok := t.(*Slice); ok {
+		for _, x := range append([]Term{old}, others...) {
+			if xs, ok := x.(*Slice); ok && xs.Base != ns.Base {
+				ns.Base.MayAlias = append(ns.Base.MayAlias, xs.Base)
+			}
+		}
+	}
+	return t
+}
+
+func (a *Analyzer) havocTerm0(loc Loc, old Term, others ...Term) Term {
 	maybeNil := false
 	for _, x := range append([]Term{old}, others...) {
 		if n := nilness(x); n == nilIs || n == nilMaybe {
@@ -1203,7 +1226,7 @@ func (a *Analyzer) joinTerm0(x, y Term, t types.Type, eqX, eqY *[]Con, desc stri
 				*eqY = append(*eqY, Con{ol.Sub(yv.Off), EQ})
 				out.Off = ol
 			} else {
-				out.Base = &Base{ID: a.id(), Desc: "⊔" + desc, Fresh: xv.Base.Fresh && yv.Base.Fresh}
+				out.Base = &Base{ID: a.id(), Desc: "⊔" + desc, Fresh: xv.Base.Fresh && yv.Base.Fresh, MayAlias: []*Base{xv.Base, yv.Base}}
 			}
 			return out
 		}
